@@ -88,6 +88,8 @@ type sys struct {
 	nkeys    int
 	clockMs  uint64
 	lastReq  map[uint64]uint64 // key -> time of the last removal request (statistics only)
+	nilMode  uint64            // event 22: what the constructor returns next (0 a routine, 1 none, 2.. none for odd keys)
+	nilKeys  map[uint64]bool   // keys whose current record was constructed without a routine (generation and statistics only)
 }
 
 func errOf(code uint64) error {
@@ -116,10 +118,26 @@ func codeOf(err error) uint64 {
 }
 
 func newSys(w *hist.W, cfg []uint64) *sys {
-	s := &sys{c: ctl.New(), w: w, variant: cfg[0]&1 == 1, ctorN: map[uint64]uint64{}, lastReq: map[uint64]uint64{}, start: time.Now()}
+	s := &sys{c: ctl.New(), w: w, variant: cfg[0]&1 == 1, ctorN: map[uint64]uint64{}, lastReq: map[uint64]uint64{}, nilKeys: map[uint64]bool{}, start: time.Now()}
 	ctor := func(key uint64) (keyed.Routine, uint64) {
 		s.ctorN[key]++
 		data := key*1000 + s.ctorN[key]
+		if s.nilMode == 1 || (s.nilMode >= 2 && key%2 == 1) {
+			// no routine: the record occupies its key and is never started
+			s.nilKeys[key] = true
+			s.w.Count("obs.constructor_returned_nil_routine", 1)
+			return nil, data
+		}
+		if s.nilKeys[key] {
+			s.w.Count("obs.routine_constructed_after_record_without_routine", 1)
+			for _, a := range s.insts {
+				if a.InUser() != 0 && a.Data.(*idata).key == key {
+					s.w.Count("obs.routine_constructed_after_record_without_routine.instance_still_in_user_code", 1)
+					break
+				}
+			}
+		}
+		delete(s.nilKeys, key)
 		return func(ctx context.Context) error { return s.userFn(ctx, data) }, data
 	}
 	opts := []keyed.Option[uint64, uint64]{
@@ -643,6 +661,12 @@ func (s *sys) exec(ev []uint64) (obs []uint64, ok bool) {
 		s.rootDead[c] = true
 		s.ncancel++
 		synctest.Wait()
+	case 22:
+		// the constructor's next results (harness-owned callback): nothing else happens
+		if len(ev) != 2 || ev[1] > 2 {
+			return nil, false
+		}
+		s.nilMode = ev[1]
 	default:
 		return nil, false
 	}
@@ -762,9 +786,42 @@ func (s *sys) gen(r *rand.Rand, maxInst int) []uint64 {
 			return []uint64{9, 0}
 		}
 	}
+	// the constructor returns no routine: construct (ResetRoutine of a key whose instance is still running, new keys),
+	// then switch back and reset such a key again - the next instance must still wait for the first one
+	if s.nilMode != 0 && r.IntN(2) == 0 {
+		switch y := r.IntN(10); {
+		case y < 4 && room:
+			return []uint64{6, key(), 0}
+		case y < 5 && room:
+			return []uint64{8, 0}
+		case y < 6 && room && !s.variant:
+			return []uint64{2, key(), uint64(r.IntN(2))}
+		case y < 6 && room && s.variant:
+			return []uint64{10, key()}
+		case y < 7 && room:
+			return []uint64{7, key(), 0}
+		default:
+			return []uint64{22, 0}
+		}
+	}
+	if s.nilMode == 0 && len(s.nilKeys) > 0 && room && r.IntN(3) == 0 {
+		for k := uint64(0); k < uint64(s.nkeys); k++ {
+			if s.nilKeys[k] {
+				if r.IntN(4) == 0 {
+					return []uint64{7, k, 0}
+				}
+				return []uint64{6, k, 0}
+			}
+		}
+	}
 	for tries := 0; tries < 300; tries++ {
 		x := r.IntN(100)
 		switch {
+		case x == 97 || (x == 29 && len(user) > 0):
+			if s.nilMode != 0 {
+				return []uint64{22, 0}
+			}
+			return []uint64{22, uint64(1 + r.IntN(2))}
 		case x < 8 && room:
 			c := uint64(0)
 			if r.IntN(9) > 0 {
@@ -861,7 +918,7 @@ func (s *sys) gen(r *rand.Rand, maxInst int) []uint64 {
 
 var evNames = map[uint64]string{1: "setcontext", 2: "setkey", 3: "removekey", 4: "synckeys", 5: "getkey", 6: "reset", 7: "restart",
 	8: "resetall", 9: "restartall", 10: "addkeyref", 11: "release", 12: "releasesection", 13: "rcremovekey", 14: "proceed",
-	15: "return", 16: "bookkeep", 17: "advance", 18: "timercb", 19: "getkeys", 20: "release_late_removekey", 21: "cancelroot"}
+	15: "return", 16: "bookkeep", 17: "advance", 18: "timercb", 19: "getkeys", 20: "release_late_removekey", 21: "cancelroot", 22: "ctormode"}
 
 func (s *sys) count(ev []uint64, before []keyed.KeyWithData[uint64, uint64], parkedBefore []*ctl.Actor, liveBefore map[uint64]bool, deadBefore bool, ninstBefore int) {
 	s.w.Count("ev."+evNames[ev[0]], 1)
